@@ -1,6 +1,6 @@
 (* C14 — server error codes map one-to-one onto typed variants and survive unchanged.
    Only statements, each closed by [exact] of a lemma from proofs/. *)
-From OA Require Import Bytes ErrorCodes ErrorCodes_proofs.
+From OA Require Import Bytes Json ErrorCodes ErrorCodes_proofs Serde Serde_proofs Responses_proofs.
 
 (* serialising a parsed code gives back the original string — every byte string, 3 families *)
 Theorem C14_as_ref_from_str :
@@ -61,6 +61,39 @@ Theorem C14_display :
     as_ref c ++ match d with Some d => s2b ": " ++ d | None => [] end
             ++ match u with Some u => s2b " (see " ++ u ++ s2b ")" | None => [] end.
 Proof. exact (@display_error_spec). Qed.
+
+(* error_description and error_uri are delivered unchanged; absent or null means none; the code
+   goes through from_str; unknown members are skipped; a serialised canonical error reads back *)
+Theorem C14_fields :
+  forall (T : Type) (from_str : bytes -> T) m e,
+    decode_error from_str (JObj m) = Some e ->
+    (exists c, find_key (s2b "error") m = Some (JStr c true) /\ er_error e = from_str c) /\
+    match find_key (s2b "error_description") m with
+    | None | Some JNull => er_description e = None
+    | Some (JStr s true) => er_description e = Some s
+    | Some _ => False end /\
+    match find_key (s2b "error_uri") m with
+    | None | Some JNull => er_uri e = None
+    | Some (JStr s true) => er_uri e = Some s
+    | Some _ => False end.
+Proof. exact @error_fields. Qed.
+
+Theorem C14_unknown_skipped :
+  forall (T : Type) (from_str : bytes -> T) m k v,
+    is_known error_names k = false -> utf8_valid k = true ->
+    decode_error from_str (JObj ((k, v) :: m)) = decode_error from_str (JObj m).
+Proof. exact @error_unknown_skipped. Qed.
+
+Theorem C14_roundtrip :
+  (forall e, basic_canon (er_error e) ->
+             decode_error basic_from_str (encode_error basic_as_ref e) = Some e) /\
+  (forall e, device_canon (er_error e) ->
+             decode_error device_from_str (encode_error device_as_ref e) = Some e) /\
+  (forall e, revocation_canon (er_error e) ->
+             decode_error revocation_from_str (encode_error revocation_as_ref e) = Some e).
+Proof.
+  exact (conj basic_error_roundtrip (conj device_error_roundtrip revocation_error_roundtrip)).
+Qed.
 
 (* non-vacuity: a case variant of a defined code satisfies the hypothesis of C14_case *)
 Example C14_case_nonvacuous :
